@@ -25,7 +25,7 @@ cp "$HERE/KNOWN_FINDINGS.txt" "$ROOT/"
 git -C /repo worktree remove --force "$WORK" >/dev/null 2>&1
 rm -rf "$WORK"
 git -C /repo worktree add --detach "$WORK" HEAD >/dev/null 2>&1 || { echo "cannot create worktree"; exit 2; }
-trap 'git -C /repo worktree remove --force "$WORK" >/dev/null 2>&1; rm -rf "$WORK" "$ROOT" "$HERE"/.build/bin/vcheck-$TAG* "$HERE"/.build/$TAG.* "$HERE"/.build/build-$TAG*; git -C /repo worktree prune' EXIT
+trap 'git -C /repo worktree remove --force "$WORK" >/dev/null 2>&1; rm -rf "$WORK" "$ROOT" "$HERE"/.build/bin/vcheck-$TAG* "$HERE"/.build/bin/min-$TAG-* "$HERE"/.build/$TAG.* "$HERE"/.build/build-$TAG*; git -C /repo worktree prune' EXIT
 ALLPROPS="C01 C02 C03 C04 C05 C06 C07 C08 C09 C10 C11 C12 C13 C14 C15 C16 C17 C18 C19"
 OUT="$HERE/selftest/RESULTS.tsv"
 : > "$OUT.new"
